@@ -254,7 +254,12 @@ func search(e *Engine, seed uint64, from, count, stride int, budget float64, var
 			break
 		}
 		t := simhook.NewSearchTape(RunSeed(seed, e.Property, run))
+		t0 := time.Now()
 		c, v := execute(e, t, st, variant, tier, params)
+		st.Max("max_run_wall_ms", time.Since(t0).Milliseconds())
+		if time.Since(t0) > 2*time.Second {
+			st.Add("runs_slower_than_2s", 1)
+		}
 		res.Runs++
 		if c.EngineError != "" {
 			res.EngineError = fmt.Sprintf("run %d: %s", run, c.EngineError)
